@@ -27,6 +27,14 @@ def run(tier, seed):
     # 3. B2: the shipped 64-bit configuration
     cases, st64 = gen_bn.gen_cases(64, 16, rng, tier)
     conf.run("std256", "std256", "bn", ["drv_bn.c"], cases, "trace/BnTrace.tla", nontrivial=nontrivial)
+    # 4. call HISTORIES over numbered slots against the library-as-one-machine (model/Relic): frame condition,
+    #    aliasing as slot choice, error outcomes, sticky code, usability after an error
+    for label, cfg, wb, dg, cap, tcfg in (("hist-w8", "w8bn", 8, 8, 18, "trace/RelicTrace.cfg"),
+                                          ("hist-std256", "std256", 64, 16, 34, "trace/RelicTrace_std256.cfg")):
+        lines = gen_bn.gen_histories(wb, dg, cap, rng, tier)
+        conf.run(label, cfg, "relic_vm", ["relic_vm.c"], lines, "trace/RelicTrace.tla",
+                 env={"RELIC_TRACE_CFG": tcfg}, case_seg_start=lambda ln: ln == "reset",
+                 nontrivial=lambda e: e.get("op", "").startswith("bn_"), min_per_shard=300, spec_cfg=tcfg)
     ev.cov["division_reach"] = dict(w8=st8, w64=st64,
                                     note="pairs for which a reference simulation of Knuth D takes the "
                                          "quotient-correction / add-back branch")
@@ -40,7 +48,8 @@ def MC_RUNS(quick):
             ("KnuthD", "KnuthD", "W=2, dividend <= 4 digits, divisor <= 3 digits, all pairs a >= b", False),
             ("KnuthD", "KnuthD_w3", "W=3, dividend <= 3 digits, divisor <= 2 digits", False),
             ("MCBigNat", "MCBigNat_small", "pure TLA+ BigNat vs native integers, operands <= 47", True),
-            ("MCBigNat", "MCBigNat", "accelerated BigNat vs native integers, operands <= 255", False)]
+            ("MCBigNat", "MCBigNat", "accelerated BigNat vs native integers, operands <= 255", False),
+            ("MCRelic", "MCRelic", "library-as-one-machine: 2 slots, 7 values, 7 operations, 3 calls", False)]
     if not quick:
         runs += [("Digits", "Digits_w2l4", "W=2, all vectors of <= 4 digits", False),
                  ("KnuthD", "KnuthD_w4", "W=4 (base 16), dividend <= 3, divisor <= 2 digits", False),
